@@ -13,6 +13,9 @@ pub mod c10;
 pub mod c11;
 pub mod c05;
 pub mod c12;
+pub mod c13;
+pub mod c14;
+pub mod c15;
 pub mod c17;
 pub mod c16;
 pub mod c18;
@@ -29,6 +32,9 @@ pub fn registry() -> Vec<PropDef> {
         PropDef { id: c02::ID, run: c02::run, replay: c02::replay },
         PropDef { id: c03::ID, run: c03::run, replay: c03::replay },
         PropDef { id: c04::ID, run: c04::run, replay: c04::replay },
+        PropDef { id: c13::ID, run: c13::run, replay: c13::replay },
+        PropDef { id: c14::ID, run: c14::run, replay: c14::replay },
+        PropDef { id: c15::ID, run: c15::run, replay: c15::replay },
         PropDef { id: c16::ID, run: c16::run, replay: c16::replay },
         PropDef { id: c18::ID, run: c18::run, replay: c18::replay },
         PropDef { id: c05::ID, run: c05::run, replay: c05::replay },
